@@ -46,7 +46,12 @@ def call_shape(np_, variant, nargs, ctx, nres, kind):
         def call(args):
             return p.call(p.id("callee"), args)
     elif kind == "method":
-        ss.append(p.local(["obj"], [p.table([("k", p.add("str", s=[109], name=True), p.func(["self"] + ps, body, va=va, ud=ud))])]))
+        if (np_ + nargs + nres) % 3 == 0:
+            ss.append(p.local(["obj"], [p.table([("k", p.add("str", s=[109], name=True), p.func(["self"] + ps, body, va=va, ud=ud))])]))
+        elif (np_ + nargs + nres) % 3 == 1:      # function obj:m(...) end
+            ss += [p.local(["obj"], [p.table([])]), p.funcstat(p.field(p.id("obj"), "m"), p.func(["self"] + ps, body, va=va, ud=ud), method=True)]
+        else:                                    # function obj.m(self, ...) end
+            ss += [p.local(["obj"], [p.table([])]), p.funcstat(p.field(p.id("obj"), "m"), p.func(["self"] + ps, body, va=va, ud=ud))]
         # the receiver expression: a local, a global, a field, a call result, a parenthesised expression
         # (anything but a local makes the compiler evaluate it into the register next to the method's)
         recv = ["local", "global", "field", "call", "paren"][(np_ + 2 * nargs + 3 * nres + len(ctx)) % 5]
